@@ -273,3 +273,18 @@ func specB2I(b bool) int {
 //@ calls[prefix] (*asmdb.InstructionDB).GetPrefixSize : arg1 == opcode && vcSame(arg2, operands)
 //@ ensures[sum@C03] result1 == nil ==> vcCalled("GetOutputSize") && vcCalled("GetPrefixSize") && vcCalled("CalcOffsetByteSize") && vcCalled("CalcSibByteSize") && result0 == vcResult[int]("GetOutputSize", 0)+vcResult[int]("GetPrefixSize", 0)+vcResult[int]("CalcOffsetByteSize", 0)+vcResult[int]("CalcSibByteSize", 0)
 //@ assigns OperandPegImpl.bitMode, OperandType[]
+
+// Thin safety-only contracts (C13): these functions get one obligation per panic site; callers keep
+// using their bodies (option inline).
+
+//@ func getPrefix66SizeForInOut
+//@ props C13
+//@ option inline
+//@ requires operands != nil
+//@ ensures[safe] true
+
+//@ func hasAccumulator
+//@ props C13
+//@ option inline
+//@ requires queryOperands != nil
+//@ ensures[safe] true
